@@ -9,7 +9,6 @@ from ..ctl import ProcessState
 
 ID = 'C04'
 KILL_TEXTS = ('t1', 't2')
-CANCEL_TEXT = 'Killed by future being cancelled'  # what a process killed through its future reports
 
 
 def is_killish(rec: dict) -> bool:
@@ -42,7 +41,9 @@ class Oracle:
         if first is not None:
             # (b) nothing new starts after the request, and the process ends KILLED (or EXCEPTED if the step failed)
             if first['op'] == 'kill':
-                allowed = 0  # (also for a kill requested from a listener callback during a transition)
+                # a kill requested from a listener callback during a transition arrives while the state that is being
+                # entered is the current step: "as soon as the current step yields" lets that one step start
+                allowed = 1 if first['origin'].startswith('listener') else 0
                 started = [t for t in w.trace[first['ntrace']:] if t[3] == 'enter']
                 if len(started) > allowed:
                     w.violate('b:step-started-after-kill', features(w, first), [t[0] for t in started])
@@ -70,23 +71,20 @@ class Oracle:
                     continue
                 final = ctl.fut_status(rec['obj'])
                 resolved_true = final in (('value', True), ('result', True))
-                if final == 'pending':
-                    w.violate('c:kill-result-pending', features(w, rec, end=str(proc.state)),
-                              'the process has terminated but what kill() returned is still pending')
                 if killed and not resolved_true:
                     w.violate('c:kill-result-not-true', features(w, rec, ret=str(final)), f'kill() returned {final}')
                 if not killed and resolved_true:
                     w.violate('c:kill-result-true-but-not-killed', features(w, rec, end=str(proc.state)), None)
             # (d) the kill text is recorded
             if killed:
-                texts = {r['args'][0] for r in calls if r['op'] == 'kill' and r['live'] and r['args'] and not r.get('withdrawn')}
+                # (also of kills whose action was cancelled again: whether that withdraws the kill is not laid down)
+                texts = {r['args'][0] for r in calls if r['op'] == 'kill' and r['live'] and r['args']}
                 if program_has_killcmd:
                     texts.add(programs.KILLCMD_TEXT)
                 msg = proc.killed_msg()
                 text = msg.get('message') if isinstance(msg, dict) else msg
-                if any(r['op'] == 'cancel' for r in calls):
-                    texts.add(CANCEL_TEXT)
-                if text not in texts:
+                cancelled = any(r['op'] == 'cancel' for r in calls)  # (no text is laid down for a kill through the future)
+                if text not in texts and not cancelled:
                     w.violate('d:kill-text', features(w, first or calls[0] if calls else None, text=repr(text)), None)
         # (f) from every live end configuration a further kill terminates the process
         if w.live():
